@@ -906,7 +906,10 @@ pub fn c10(c: &mut Ctx) {
                         }
                         // iff: the operation had not completed before the deadline. For a tell that was the
                         // sole waiter: a slot freed (a message was taken) strictly before the deadline
-                        if o.tag == OpTag::TellT {
+                        // (only when the send registered as a waiter in its first poll, i.e. the cooperative
+                        // budget was available at the invocation - with an exhausted budget the acquire returns
+                        // Pending *without* queueing, and a later sender may legitimately get the freed slot)
+                        if o.tag == OpTag::TellT && o.budget {
                             for (hs, ht, _) in ar.hooks.iter().filter(|(s, _, e)| *s > o.inv_seq && *s < *seq && matches!(e, HookEv::HEnter(_))) {
                                 if *ht + tol >= deadline {
                                     continue;
